@@ -287,7 +287,16 @@ def code_to_spec(ctx, metrics, ncases):
         name, kw = trs[int(rng.integers(0, len(trs)))]
         T = transform.get_transform(name, **kw)
         which = ["nse", "bias", "kge", "corr"][int(rng.integers(0, 4))]
-        if which == "corr":
+        if which == "corr" and t % 2:
+            # ensemble forecasts (odd and even sizes, members missing here and there), every summary statistic and correlation type
+            m = int(rng.choice([3, 4, 5, 7]))
+            ens = sim[:, None] * rng.uniform(0.8, 1.25, size=(n, m))
+            for _ in range(int(rng.integers(0, 4))):
+                ens[int(rng.integers(0, n)), int(rng.integers(0, m))] = np.nan
+            kw2 = {"stat": ["median", "mean"][(t // 2) % 2], "type": ["Pearson", "Spearman"][(t // 4) % 2]}
+            a = call(metrics.corr, obs, ens, trans=T, **kw2)
+            b = call(metrics.corr, T.forward(obs), T.forward(ens), trans=ident, **kw2)
+        elif which == "corr":
             a = call(metrics.corr, obs, sim[:, None], trans=T)
             b = call(metrics.corr, T.forward(obs), T.forward(sim)[:, None], trans=ident)
         else:
